@@ -539,6 +539,15 @@ class MemServerBackend(AsyncIOBackend):
         self.listeners.extend(made)
         return made
 
+    async def create_udp_listeners(self, host, port, *, reuse_port=False):
+        import asyncio as _asyncio
+
+        for _ in range(self.listener_delay):
+            await self.coro_yield()
+        made = [MemDatagramListener(self, _asyncio.get_running_loop()) for _ in range(self.n_listeners)]
+        self.listeners.extend(made)
+        return made
+
 
 def _listener_extra(self):
     from easynetwork.lowlevel.socket import INETSocketAttribute
@@ -552,3 +561,6 @@ def _listener_extra(self):
 
 
 MemListener.extra_attributes = property(_listener_extra)
+
+
+MemDatagramListener.extra_attributes = property(_listener_extra)
